@@ -23,13 +23,22 @@ def explore_cases(ctx, gen, check, n, label, shrink=None, max_shrinks=3):
 def run_case(ctx, case, check, label, shrink=None, shr=None, max_shrinks=3, sample=False):
     st = ctx.stats
     st.evaluations += 1
-    res = check(case, st)
+    from .. import common as common_mod
+    guard = common_mod.LOOP_GUARD
+    guard.arm()
+    try:
+        res = check(case, st)
+    except common_mod.StepBudget as e:
+        res = ('non-termination', '%s (case %r)' % (e, repr(case)[:600]))
+        st.count('loop_guard_verdicts')
+    finally:
+        guard.disarm()
     if sample:
         st.sample({'kind': label, 'case': case})
     if res is None:
         return None
     sig, msg = res
-    if shrink is not None and shr is not None:
+    if shrink is not None and shr is not None and sig != 'non-termination':
         shr[sig] = shr.get(sig, 0) + 1
         if shr[sig] <= max_shrinks:
             try:
